@@ -24,7 +24,7 @@ BUDGET = {'quick': 170, 'thorough': 1500}
 CHUNK = {'quick': 10, 'thorough': 40}
 CASE_TIMEOUT = 300
 REQUIRED = ['steps_law_checked', 'scan_thresholds_checked', 'selections_checked', 'thresholds_checked', 'clock_draws_checked',
-            'terminations_checked', 'outputs_match_tracked_events', 'e3_states_expanded', 'directed_runs', 'rate_function_calls_checked']
+            'terminations_checked', 'outputs_match_tracked_events', 'e3_states_expanded', 'directed_runs', 'rate_function_calls_checked', 'defaultdict_IC_runs']
 
 
 def gen_cases(tier, seed):
@@ -119,6 +119,16 @@ def _rate_fn_calls_ok(call, calls, res, tag):
 def run_case(case):
     res = new_result()
     call = simreg.build_call(case)
+    if case['seed'] % 4 == 0:
+        # the documented idiom: IC = defaultdict(lambda: 'S') with only the exceptional nodes set
+        import collections
+        common = collections.Counter(call.IC.values()).most_common(1)[0][0]
+        dd = collections.defaultdict(lambda: common)
+        for n_, s_ in call.IC.items():
+            if s_ != common:
+                dd[n_] = s_
+        call.args[3] = dd
+        bump(res, 'defaultdict_IC_runs')
     # rebuild spec graphs to get hold of the rate-function call log
     H, J, node_w, edge_w, calls = specs.build_spec_graphs(case['spec'], case.get('weight_form'), call.G, directed=call.G.is_directed(),
                                                           spont_boost=case.get('spont_boost', 1.0), nbr_boost=case.get('nbr_boost', 1.0))
